@@ -1360,7 +1360,19 @@ def run_case(case, col):
             args = ()
             cstate = 'cold'
             try:
-                if m == 'construct':
+                if m == 'switch_net':
+                    # a second Service, for another network, on the SAME cache database (the library's default set-up:
+                    # one cache file for every network); the providers of the new network follow the same fault plans
+                    cur_net = call['net']
+                    W.net = cur_net            # the fake providers of the new Service build their answers for its network
+                    for v in keys.values():
+                        v['network'] = cur_net
+                    with open(os.path.join(d, 'providers.json'), 'w') as f:
+                        json.dump(keys, f)
+                    srv = S.Service(network=cur_net, min_providers=case['minp'], max_providers=case['maxp'],
+                                    cache_uri=dbp, max_errors=case['me'])
+                    ret = srv
+                elif m == 'construct':
                     # registry of block counts must exist before judging: collected from the log below
                     srv = S.Service(network=case['net'], min_providers=case['minp'], max_providers=case['maxp'],
                                     cache_uri=dbp, max_errors=case['me'])
@@ -1385,7 +1397,25 @@ def run_case(case, col):
                 judge_execute(r, col, case, callrec)
                 if r['method'] == 'blockcount':
                     W.last_bc_failed = r['failed']
+            if m == 'switch_net':
+                col.case('switch_net/%s->%s' % (case['net'], call['net']), nontrivial=('switch', case['net'], call['net']),
+                         sample=dict(case, failing_call=idx))
+                if srv is None or exc is not None:
+                    col.note_inconclusive('second Service for %s could not be constructed: %r' % (call['net'], exc))
+                    break
+                continue
             judge_call(callrec, col, case)
+            # every answer belongs to the network of the Service that was asked (one cache database serves all networks)
+            if exc is None and srv is not None and m in ('gettransaction', 'gettransactions', 'getutxos') and ret:
+                col.probe('answer_network')
+                want = srv.network.name
+                items = ret if isinstance(ret, list) else [ret]
+                other = sorted({getattr(getattr(t, 'network', None), 'name', None) or (isinstance(t, dict) and t.get('network_name')) or want
+                                for t in items} - {want})
+                if other:
+                    col.violation(None, 'API %s: a Service for %s answered with data of network %s (%d provider answers in this call) '
+                                  '[answer of another network]' % (m, want, other, sum(1 for r in execs for a in r.get('answers', []) or [])),
+                                  dict(case, failing_call=idx), other, want)
             if m != 'construct':
                 check_address_records(callrec, col, case)
             invoked = len(W.log) > l0
@@ -1584,6 +1614,33 @@ def gen_cache_scenarios():
     return out
 
 
+def gen_crossnet_scenarios():
+    """Network A warms the shared cache database, then a Service for network B asks for the same ids: with working
+    providers (B's provider must be consulted and its answer returned) and with every provider of B failing (refusal)."""
+    out = []
+    n = 0
+    for a in NETS:
+        for b in NETS:
+            if a == b:
+                continue
+            for second in (['exc', 'exc'], ['ok', 'ok'], ['empty', 'exc'], ['exc', 'ok']):
+                for txn in ('t1', 't4'):
+                    me = MAX_ERRORS[n % 4]
+                    n += 1
+                    ok = ['ok', 'ok']
+                    cs = {'net': a, 'prio': [20, 10], 'me': me, 'minp': 1, 'maxp': 1, 'rs': 11, 'calls': [
+                        {'m': 'gettransaction', 'a': {'tx': txn}, 'plans': {'gettransaction': ok}},
+                        {'m': 'gettransactions', 'a': {'addr': 'A'}, 'plans': {'gettransactions': ok}},
+                        {'m': 'switch_net', 'net': b, 'plans': {}},
+                        {'m': 'gettransaction', 'a': {'tx': txn}, 'plans': {'gettransaction': second}},
+                        {'m': 'getrawtransaction', 'a': {'tx': txn}, 'plans': {'getrawtransaction': second}},
+                        {'m': 'gettransaction', 'a': {'tx': 't2'}, 'plans': {'gettransaction': second}},
+                        {'m': 'switch_net', 'net': a, 'plans': {}},
+                        {'m': 'gettransaction', 'a': {'tx': txn}, 'plans': {'gettransaction': second}}]}
+                    out.append(cs)
+    return out
+
+
 def gen_record_scenarios():
     """Multi-method families: method A warms the cache, the chain may grow, method B (a query that writes the stored
     address record) runs, methods C read the record back (directly, and with every provider failing)."""
@@ -1685,7 +1742,7 @@ def run_shard(spec, col):
     except Exception as e:
         col.note_inconclusive('reference self-check failed: %r' % (e,))
         return
-    for p in ('failover_loop', 'api_call', 'cache_served', 'no_network_guard', 'address_record'):
+    for p in ('failover_loop', 'api_call', 'cache_served', 'no_network_guard', 'address_record', 'answer_network'):
         col.require(p)
     sh, ns = spec['shard'], spec['nshard']
     tier, seed = spec.get('tier', 'quick'), spec['seed']
@@ -1707,6 +1764,10 @@ def run_shard(spec, col):
         if j % ns == sh:
             cs = dict(cs, rs=cs['rs'] + 1000 * seed, me=MAX_ERRORS[(j + seed) % 4])
             run_case(cs, col)
+    # B5. two networks on one cache database
+    for j, cs in enumerate(gen_crossnet_scenarios()):
+        if j % ns == sh:
+            run_case(dict(cs, rs=cs['rs'] + 1000 * seed), col)
     # B3. after_txid at every position of a warm history; B4. paged getblock under every fault plan
     for j, cs in enumerate(gen_after_scenarios() + gen_page_scenarios()):
         if j % ns == sh:
